@@ -49,11 +49,21 @@ func newStats() *Stats {
 
 func (s *Stats) Count(k string)        { s.Counts[k]++ }
 func (s *Stats) Add(k string, n int)   { s.Counts[k] += n }
+// maxSetSize bounds the memory of a worker: beyond it a set stops growing and the reported
+// number of distinct items is a lower bound (counted in "set-capped:<name>").
+const maxSetSize = 200000
+
 func (s *Stats) Distinct(k string, h uint64) {
 	m := s.Sets[k]
 	if m == nil {
 		m = map[uint64]struct{}{}
 		s.Sets[k] = m
+	}
+	if len(m) >= maxSetSize {
+		if _, ok := m[h]; !ok {
+			s.Counts["set-capped:"+k]++
+		}
+		return
 	}
 	m[h] = struct{}{}
 }
